@@ -323,16 +323,27 @@ func runC14(c *ctx) {
 	for rep := 0; rep < c.scale(1500, 30000) && !c.tooMany(); rep++ {
 		k := 2 + r.intn(5)
 		arr := make([]interface{}, k)
+		names := []string{"a", "b", "c", "d"}
+		bucket := "objfn-array"
+		if rep%4 == 0 {
+			// wide objects: 10..40 member names, mostly shared between the members of the array
+			names = names[:0]
+			for j := 0; j < 10+r.intn(31); j++ {
+				names = append(names, fmt.Sprintf("n%02d", j))
+			}
+			names = append(names, "a")
+			bucket = "objfn-array-wide"
+		}
 		for i := range arr {
 			o := map[string]interface{}{}
-			for _, nm := range []string{"a", "b", "c", "d"} {
-				if r.chance(2, 5) {
+			for _, nm := range names {
+				if r.chance(2, 5) || (len(names) > 4 && r.chance(4, 5)) {
 					o[nm] = float64(i*10 + r.intn(3))
 				}
 			}
 			arr[i] = o
 		}
-		c.diffEval(aprogs[r.intn(len(aprogs))], arr, "objfn-array")
+		c.diffEval(aprogs[r.intn(len(aprogs))], arr, bucket)
 	}
 	for rep := 0; rep < c.scale(2500, 50000) && !c.tooMany(); rep++ {
 		o := randObj(r, 2)
